@@ -348,6 +348,8 @@ func (r *zzBody) Read(p []byte) (int, error) {
 		r.end()
 		return 0, io.ErrUnexpectedEOF
 	default: // stall
+		// a backend that has gone silent stays silent: every later Read blocks as well
+		r.i--
 		w.mu.Lock()
 		r.a.stalled = true
 		w.mu.Unlock()
